@@ -72,7 +72,8 @@ func (r *yieldRewriter) rewriteRanges(block *ast.BlockStmt) {
 			case *types.Chan:
 				do(cstNewChanIter, n.X)
 			case *types.Signature:
-				panic("implement me: range func")
+				// range func is not supported, leave it native,
+				// yield in the body will be rejected in rewriteStmt
 			}
 		}
 		return true
